@@ -1526,8 +1526,10 @@ class LuaFormatterWriter(LuaASTEchoWriter):
         spaces = re.sub(br'\n\n+', b'\n\n', spaces)
 
         # Remove excess trailing whitespace at end of file.
+        # (Blanks after the last line don't count as a final newline.)
         if self._pos == len(self._tokens):
-            spaces = re.sub(br'[ \n]+$', b'\n', spaces)
+            spaces = re.sub(br'[ \n]*\n[ \n]*\Z', b'\n', spaces)
+            spaces = re.sub(br' +\Z', b'', spaces)
 
         # TODO: same-line spacing patterns:
         # - one space before and after binop
